@@ -419,7 +419,32 @@ func (t *Transaction) UnmarshalJSON(data []byte) error {
 		return errors.New("'size' doesn't match transaction size")
 	}
 
-	return t.isValid()
+	if err := t.isValid(); err != nil {
+		return err
+	}
+	// The limits of the binary format (numbers of signers and attributes,
+	// script lengths, ...) are the limits of a transaction. The number of
+	// witnesses is not checked: unsigned transactions travel in JSON too.
+	buf, err := t.EncodeHashableFields()
+	if err != nil {
+		return fmt.Errorf("invalid transaction: %w", err)
+	}
+	if err := new(Transaction).DecodeHashableFields(buf); err != nil {
+		return fmt.Errorf("invalid transaction: %w", err)
+	}
+	if len(t.Scripts) > MaxAttributes {
+		return errors.New("invalid transaction: too many witnesses")
+	}
+	for i := range t.Scripts {
+		bw := io.NewBufBinWriter()
+		t.Scripts[i].EncodeBinary(bw.BinWriter)
+		br := io.NewBinReaderFromBuf(bw.Bytes())
+		new(Witness).DecodeBinary(br)
+		if br.Err != nil {
+			return fmt.Errorf("invalid transaction: witness %d: %w", i, br.Err)
+		}
+	}
+	return nil
 }
 
 // UnmarshalJSONUnsafe unmarshalls the given slice into Transaction. It does NOT
